@@ -24,13 +24,15 @@
 (*    fluents of Q are those of P plus auxiliary ones; ground actions of   *)
 (*    Q map back (recorded table of the real map_back_action_instance) to  *)
 (*    a ground action of P, or to nothing (auxiliary actions).             *)
-(*    TLC enumerates EVERY total state st over Q's ground fluents (all of  *)
-(*    them, not only the reachable ones).  Base(st) resets the auxiliary   *)
-(*    fluents to their initial values, AuxReach(t) closes t under the      *)
-(*    auxiliary actions; st is                                             *)
-(*    JUSTIFIED when st \in AuxReach(Base(st)) (auxiliary fluents only     *)
-(*    record facts about the original fluents that hold).  In every        *)
-(*    justified state, for every original ground action ga with variants   *)
+(*    TLC generates EVERY total state st over Q's ground fluents (all of   *)
+(*    them, not only the reachable ones; as successors of one root state   *)
+(*    per compilation so that TLC's workers share the compilations).       *)
+(*    Base(st) resets the auxiliary fluents to their initial values,       *)
+(*    AuxReach(t) closes t under the auxiliary actions; st is JUSTIFIED    *)
+(*    when st \in AuxReach(Base(st)): auxiliary fluents only record facts  *)
+(*    about the original fluents that hold (the other states cannot be     *)
+(*    reached by any compiled plan and are skipped).  In every justified   *)
+(*    state, for every original ground action ga with variants             *)
 (*    V(ga) = compiled ground actions mapping back to ga:                  *)
 (*      variant-applicable-original-not   no variant is applicable unless  *)
 (*                                        ga is                            *)
